@@ -49,6 +49,7 @@ class ForkNext(Unit):
     expected_exits = ('normal', 'raise')
     numeric_vals_are_ints = True
     canaries = (
+        ('the last fork does not pop the window when the element is falsy', '                if box.n == self.n_forks:', '                if box.n == self.n_forks and box.value:', 'popped exactly once'),
         ('pinned-tree defect (i) shape: lock released only on the normal path', '                    finally:\n                        self.instream_lock.release()\n                self.next = self.head.value',
          '                    finally:\n                        pass\n                    self.instream_lock.release()\n                self.next = self.head.value', 'lock is released'),
         ('pinned-tree defect (ii): unconditional lock on the first-element path', '                    if not self.instream_lock.acquire(timeout=0.1):\n                        continue', '                    self.instream_lock.acquire()', 'timed'),
@@ -308,7 +309,8 @@ class ForkNext(Unit):
                 s2 = s.fork()
                 s2.ghost['consumed'] = n0 + 1
                 ex.oblige(s2, 'exit(return): the fork-local invariant is re-established with consumed + 1', self.J(s2))
-                ex.oblige(s, 'exit(return): the window is popped at most once, and only by the last consumer', s.ghost['gets'] <= 1)
+                ex.oblige(s, 'exit(return): the window is popped exactly once per element -- by the fork that is the last to count itself on it (and by no other): otherwise the window fills up for good and the source, then every fork, blocks forever',
+                          s.ghost['gets'] == z3.If(s.ghost.get('n_after', z3.IntVal(-1)) == self.n_forks, 1, 0))
             else:
                 stop = z3.And(V.isinst(p, 'StopIteration'), s.ghost['ended'], V.is_none(s.ghost['head_exc']), n0 == s.ghost['pulled'])
                 failed = z3.And(z3.Not(V.is_none(s.ghost['head_exc'])), p == s.ghost['head_exc'], n0 == s.ghost['pulled'], s.ghost['ended'])
